@@ -1,5 +1,6 @@
 """C15 - timeline! produces exactly the timeline the builder API would (DESIGN.md section 5, C15)."""
 import json
+import re
 import os
 import subprocess
 import extract
@@ -78,11 +79,11 @@ def rule_tv(ctx, rule="R1"):
 KNOWN_PEEKS = {
     "syn::token::Comma": "end of one timeline in a merge list",
     "syn::token::For": "for",
-    "mina_macros::fn_timeline::kw::after": "after",
-    "mina_macros::fn_timeline::kw::reverse": "reverse",
-    "mina_macros::fn_timeline::kw::infinite": "infinite",
-    "mina_macros::fn_timeline::kw::from": "kf:from",
-    "mina_macros::fn_timeline::kw::to": "kf:to",
+    "kw::after": "after",
+    "kw::reverse": "reverse",
+    "kw::infinite": "infinite",
+    "kw::from": "kf:from",
+    "kw::to": "kf:to",
     "syn::lit::Lit": "literal (duration / repeat / percent)",
     "syn::token::Percent": "kf:%",
     "syn::token::Bracket": "merge-list",
@@ -198,9 +199,13 @@ def rule_grammar(ctx, prods, rule="R2"):
 def norm_tok(tok):
     if tok is None:
         return "?"
-    t = tok.replace("mina_macros::fn_timeline::kw::", "mina_macros::fn_timeline::kw::")
-    # custom keywords: the token fn is kw::<name>; syn tokens: syn::token::<Name>
-    for pre in ("syn::token::", "mina_macros::fn_timeline::kw::", "syn::lit::"):
+    t = tok
+    # custom keywords (syn::custom_keyword! in a `kw` module of the macro crate, wherever that module lives): kw::<name>
+    m = re.search(r"(?:^|::)kw::([A-Za-z_0-9]+)", t)
+    if m and t.startswith(PARSER_CRATE + "::"):
+        return "kw::" + m.group(1)
+    # syn tokens: syn::token::<Name>
+    for pre in ("syn::token::", "syn::lit::"):
         if pre in t:
             rest = t.split(pre, 1)[1]
             name = rest.split("::")[0].split("<")[0].split(">")[0]
